@@ -505,3 +505,5 @@ def run(ctx):
     from rules import conventions as conv
     conv.check_find_bin_1d(ctx, "C15.e", m.cls("Histogram1D").methods["find_bin"])
     conv.check_find_bin_nd(ctx, "C15.e", m.cls("HistogramND").methods["find_bin"])
+    # transformed histograms are filled through the base classes' fill: every (lookup result, keep_missed) case (shared with C03.a)
+    ctx.borrow("C03", ("HistogramND.fill:case(", "Histogram1D.fill:case(", "Histogram1D.fill:missed-writes-guarded"), "C15.e", floor=8)
